@@ -41,7 +41,13 @@ impl WalArchiveRecovery {
             })
             .collect();
 
-        archives.sort();
+        // Log order: by numeric log id, then time range; plain path order would put
+        // "wal-100000-…" before "wal-99999-…" once ids outgrow the 5-digit padding.
+        archives.sort_by(|a, b| {
+            Self::archive_sort_key(a)
+                .cmp(&Self::archive_sort_key(b))
+                .then_with(|| a.cmp(b))
+        });
 
         info!(
             target: "wal_archive_recovery::list_archives",
@@ -51,6 +57,23 @@ impl WalArchiveRecovery {
         );
 
         Ok(archives)
+    }
+
+    /// (log id, start, end) parsed from "wal-{id}-{start}-{end}.wal.zst"; other names sort last
+    fn archive_sort_key(path: &Path) -> (u64, u64, u64) {
+        let parsed = path
+            .file_name()
+            .and_then(|n| n.to_str())
+            .and_then(|n| n.strip_prefix("wal-"))
+            .and_then(|n| n.strip_suffix(".wal.zst"))
+            .and_then(|n| {
+                let mut it = n.split('-').map(|x| x.parse::<u64>().ok());
+                match (it.next(), it.next(), it.next(), it.next()) {
+                    (Some(Some(id)), Some(Some(start)), Some(Some(end)), None) => Some((id, start, end)),
+                    _ => None,
+                }
+            });
+        parsed.unwrap_or((u64::MAX, u64::MAX, u64::MAX))
     }
 
     /// Recover entries from a single archive file
